@@ -2,7 +2,7 @@
 import re
 from ..ir import AnalysisBroken, strip_targs, qmatch
 from ..graph import Graph
-from ..expr import access_path, path_str, reaching_defs, norm_cond, origins, leaves, defs_in_node
+from ..expr import access_path, path_str, reaching_defs, norm_cond, origins, leaves, defs_in_node, is_transparent_call
 from .common import strip_casts, short, comparison
 
 UNITS = ['sdk/src/trace/tracer.cc', 'sdk/src/common/random.cc', 'sdk/src/trace/random_id_generator.cc']
@@ -38,8 +38,9 @@ def rule_r1(ck, prog, f, rule='C05.R1'):
     g = Graph(prog, f, inline=None, sync_lambdas=False)
     rd = reaching_defs(g)
     # sink: construction of TraceFlags from a local byte
-    sinks = [p for p in g.calls('trace::TraceFlags::TraceFlags') if p.n.get('args') and
-             strip_casts(f, p.n['args'][0])['k'] == 'ref' and strip_casts(f, p.n['args'][0]).get('sk') == 'local']
+    sinks = [p for p in g.calls('trace::TraceFlags::TraceFlags') if p.n.get('args') and not p.n.get('copymove') and
+             strip_casts(f, p.n['args'][0])['k'] == 'ref' and strip_casts(f, p.n['args'][0]).get('sk') == 'local' and
+             'TraceFlags' not in (strip_casts(f, p.n['args'][0]).get('t') or '')]
     if not sinks:
         raise AnalysisBroken('%s: construction of TraceFlags from the flags byte not found' % short(f))
     sink = sinks[0]
@@ -51,43 +52,103 @@ def rule_r1(ck, prog, f, rule='C05.R1'):
                 return True
         return False
 
+    def b_or(a, b):
+        if a == 1 or b == 1:
+            return 1
+        if a == 0:
+            return b
+        if b == 0:
+            return a
+        return P if (a == P and b == P) else U
+
+    def b_and(a, b):
+        if a == 0 or b == 0:
+            return 0
+        if a == 1:
+            return b
+        if b == 1:
+            return a
+        return P if (a == P and b == P) else U
+
+    def b_not(a):
+        return {0: 1, 1: 0}.get(a, U)
+
+    def b_xor(a, b):
+        if a in (0, 1) and b in (0, 1):
+            return a ^ b
+        if b == 0:
+            return a
+        if a == 0:
+            return b
+        return U
+
+    def is_decision(idx):
+        core, pol = norm_cond(f, idx)
+        cn = f.nodes[core]
+        if cn['k'] == 'call' and qmatch(cn.get('c', ''), 'SamplingResult::IsSampled'):
+            return pol
+        return None
+
+    def abs_eval(idx, bits, dec, depth=0):
+        """abstract value of an 8-bit expression: set of (bit vector, decision); conditional expressions on the sampler's
+        decision split the state"""
+        n = f.nodes[idx]
+        if n.get('v') is not None and n['k'] != 'ref':
+            return {(_bits(n['v'] & 0xff), dec)}
+        k = n['k']
+        if k in ('cast', 'paren') and n.get('e') is not None:
+            return abs_eval(n['e'], bits, dec, depth + 1)
+        if k == 'ref':
+            if n.get('id') == vid:
+                return {(bits, dec)}
+            if n.get('v') is not None:
+                return {(_bits(n['v'] & 0xff), dec)}
+            return {(tuple([U] * 8), dec)}
+        if k == 'unop' and n['op'] == '~':
+            return {(tuple(b_not(x) for x in b), d) for (b, d) in abs_eval(n['e'], bits, dec, depth + 1)}
+        if k == 'binop' and n['op'] in ('|', '&', '^'):
+            fn = {'|': b_or, '&': b_and, '^': b_xor}[n['op']]
+            out = set()
+            for (lb, ld) in abs_eval(n['lhs'], bits, dec, depth + 1):
+                for (rb, rd_) in abs_eval(n['rhs'], bits, ld, depth + 1):
+                    out.add((tuple(fn(lb[i], rb[i]) for i in range(8)), rd_))
+            return out
+        if k == 'cond':
+            pol = is_decision(n['cnd'])
+            if pol is not None and dec is None:
+                return abs_eval(n['a'], bits, pol, depth + 1) | abs_eval(n['b'], bits, (not pol), depth + 1)
+            if pol is not None:
+                return abs_eval(n['a'] if dec is pol else n['b'], bits, dec, depth + 1)
+            return abs_eval(n['a'], bits, dec, depth + 1) | abs_eval(n['b'], bits, dec, depth + 1)
+        if is_parent_flags(idx):
+            return {(tuple([P] * 8), dec)}
+        return {(tuple([U] * 8), dec)}
+
     def transfer(p, st):
         n = p.n
         if n is None:
             return st
         out = set()
         for (bits, dec) in st:
-            nb = bits
+            res = {(bits, dec)}
             if n['k'] == 'declstmt':
                 for d in n['decls']:
                     if d['id'] == vid:
-                        v = f.nodes[d['init']].get('v') if 'init' in d else None
-                        nb = _bits(v) if v is not None else tuple([U] * 8)
+                        res = abs_eval(d['init'], tuple([U] * 8), dec) if d.get('init') is not None and d['init'] >= 0 else {(tuple([U] * 8), dec)}
             elif n['k'] == 'binop' and strip_casts(f, n['lhs']).get('id') == vid:
                 op = n['op']
-                rv = strip_casts(f, n['rhs']).get('v')
-                if rv is None:
-                    rv = f.nodes[n['rhs']].get('v')
                 if op == '=':
-                    if rv is not None:
-                        nb = _bits(rv & 0xff)
-                    elif is_parent_flags(n['rhs']):
-                        nb = tuple([P] * 8)
-                    else:
-                        nb = tuple([U] * 8)
-                elif op == '|=' and rv is not None:
-                    nb = tuple(1 if (rv >> i) & 1 else bits[i] for i in range(8))
-                elif op == '&=' and rv is not None:
-                    nb = tuple(bits[i] if (rv >> i) & 1 else 0 for i in range(8))
-                elif op == '^=' and rv is not None:
-                    nb = tuple((U if bits[i] in (P, U) else bits[i] ^ 1) if (rv >> i) & 1 else bits[i] for i in range(8))
+                    res = abs_eval(n['rhs'], bits, dec)
+                elif op in ('|=', '&=', '^='):
+                    fn = {'|=': b_or, '&=': b_and, '^=': b_xor}[op]
+                    res = {(tuple(fn(bits[i], rb[i]) for i in range(8)), rd_) for (rb, rd_) in abs_eval(n['rhs'], bits, dec)}
                 else:
-                    nb = tuple([U] * 8)
+                    res = {(tuple([U] * 8), dec)}
             elif n['k'] in ('call', 'construct'):
                 for (v, strong, vx) in defs_in_node(f, n):
                     if v == vid:
-                        nb = tuple([U] * 8)
-            out.add((nb, dec))
+                        res = {(tuple([U] * 8), dec)}
+            out |= res
         return frozenset(out)
 
     def edge_transfer(p, q, lab, st):
@@ -387,38 +448,96 @@ def rule_r3(ck, prog, f, g, rd, parent_vid, rule='C05.R3'):
     # remote flag false
     ok = f.nodes[args[3]].get('v') == 0 or strip_casts(f, args[3]).get('v') == 0
     ck.verdict(ok, rule, f, 'not-remote', sc.n, 'is_remote is false' if ok else 'a locally started span is marked remote')
-    # trace state: sampler's if set, else parent's on the valid edge, else default
+    # trace state: sampler's if set, else parent's when the parent is valid, else the default - decided per scenario: the
+    # conditions that test "sampler supplied a state" / "parent valid" are classified by what they are computed from, the flow is
+    # restricted to the scenario, and the argument is resolved through conditional expressions and locals
     ok = False
+    ts_why = ''
     if len(args) >= 5:
-        n = strip_casts(f, args[4])
-        if n['k'] == 'cond':
-            c1 = leaves(f, n['cnd'], follow_locals=False)
-            a1 = leaves(f, n['a'], follow_locals=False)
-            first = any(l[0] == 'memberof' and l[1] == 'trace_state' for l in c1) and any(l[0] == 'memberof' and l[1] == 'trace_state' for l in a1)
-            m = strip_casts(f, n['b'])
-            if first and m['k'] == 'cond':
-                core, pol = norm_cond(f, m['cnd'])
-                srcs = origins(g, rd, f, core, sc.ctx)
-                # the selector is the parent-valid fact
-                sel_ok = False
-                cn = f.nodes[core]
-                if cn['k'] == 'ref':
-                    pt = g.point_of.get((id(sc.ctx), core))
-                    defs = [g.points[d] for (v, d) in rd.get(pt.id if pt else sc.id, ()) if v == cn.get('id')]
-                    trues = [dp for dp in defs if any(vx is not None and f.nodes[vx].get('v') == 1 for (v, s, vx) in defs_in_node(f, dp.n) if v == cn.get('id'))]
-                    sel_ok = bool(trues) and all(g.must_pass_edge(dp, parent_valid_edge(True)) for dp in trues)
-                elif cn['k'] == 'call' and strip_targs(cn.get('c', '')).endswith('SpanContext::IsValid'):
-                    sel_ok = strip_casts(f, cn['obj']).get('id') == parent_vid
-                ta, tb = (m['a'], m['b']) if pol else (m['b'], m['a'])
-                an = {strip_targs(f.nodes[j].get('c', '')).rsplit('::', 2)[-2:][0] + '::' + strip_targs(f.nodes[j].get('c', '')).rsplit('::', 1)[-1]
-                      for j in f.subtree(ta) if f.nodes[j]['k'] == 'call'}
-                bn = {strip_targs(f.nodes[j].get('c', '')).rsplit('::', 1)[-1] for j in f.subtree(tb) if f.nodes[j]['k'] == 'call'}
-                par_ok = 'SpanContext::trace_state' in an and any(strip_casts(f, f.nodes[j]['obj']).get('id') == parent_vid for j in f.subtree(ta)
-                                                                  if f.nodes[j]['k'] == 'call' and f.nodes[j].get('obj') is not None and strip_targs(f.nodes[j].get('c', '')).endswith('SpanContext::trace_state'))
-                ok = sel_ok and par_ok and 'GetDefault' in bn
+        sr_vars = {d['id'] for n in f.nodes if n['k'] == 'declstmt' for d in n['decls'] if 'SamplingResult' in d['t']}
+
+        def is_sampler_state(sf, idx):
+            n = strip_casts(sf, idx)
+            return n['k'] == 'member' and n['name'] == 'trace_state' and n.get('base') is not None and strip_casts(sf, n['base']).get('id') in sr_vars
+
+        def atom_role(ff, cnd, ctx):
+            core, pol = norm_cond(ff, cnd)
+            cn = strip_casts(ff, core)
+            if cn['k'] == 'call' and is_transparent_call(cn) and cn.get('args'):
+                cn = strip_casts(ff, cn['args'][0])
+            if cn['k'] == 'call' and strip_targs(cn.get('c', '')).endswith('shared_ptr::operator bool') and cn.get('obj') is not None:
+                cn = strip_casts(ff, cn['obj'])
+            if is_sampler_state(ff, cn['i']):
+                return 'samplerSet', pol
+            if cn['k'] == 'call' and strip_targs(cn.get('c', '')).endswith('SpanContext::IsValid') and cn.get('obj') is not None and \
+                    strip_casts(ff, cn['obj']).get('id') == parent_vid:
+                return 'parentValid', pol
+            if cn['k'] == 'ref' and cn.get('sk') == 'local':
+                t = cn.get('t') or ''
+                if 'bool' in t:
+                    # a flag: every definition "true" is behind the parent-valid edge, every other definition is the literal false
+                    defs_all = [(p_, vx) for p_ in g.points if p_.n is not None for (v, st, vx) in defs_in_node(p_.f, p_.n) if v == cn['id']]
+                    trues = [p_ for (p_, vx) in defs_all if vx is not None and strip_casts(p_.f, vx).get('v') == 1]
+                    rest = [p_ for (p_, vx) in defs_all if not (vx is not None and strip_casts(p_.f, vx).get('v') in (0, 1))]
+                    if trues and not rest and all(g.must_pass_edge(p_, parent_valid_edge(True)) for p_ in trues):
+                        return 'parentValid', pol
+                else:
+                    srcs = origins(g, rd, ff, cn['i'], ctx)
+                    if srcs and all(is_sampler_state(sf, sn['i']) for (sf, sn, sc_) in srcs):
+                        return 'samplerSet', pol
+            return None, pol
+
+        def resolve(ff, idx, ctx, scen, rds, depth=0):
+            n = strip_casts(ff, idx)
+            if depth > 8:
+                return {'other:depth'}
+            if n['k'] == 'construct' and n.get('copymove') and len(n.get('args', [])) == 1:
+                return resolve(ff, n['args'][0], ctx, scen, rds, depth + 1)
+            if n['k'] == 'cond':
+                role, pol = atom_role(ff, n['cnd'], ctx)
+                if role in scen:
+                    truth = scen[role] if pol else (not scen[role])
+                    return resolve(ff, n['a'] if truth else n['b'], ctx, scen, rds, depth + 1)
+                return resolve(ff, n['a'], ctx, scen, rds, depth + 1) | resolve(ff, n['b'], ctx, scen, rds, depth + 1)
+            if is_sampler_state(ff, n['i']):
+                return {'sampler'}
+            if n['k'] == 'call' and strip_targs(n.get('c', '')).endswith('SpanContext::trace_state') and n.get('obj') is not None and \
+                    strip_casts(ff, n['obj']).get('id') == parent_vid:
+                return {'parent'}
+            if n['k'] == 'call' and strip_targs(n.get('c', '')).endswith('TraceState::GetDefault'):
+                return {'default'}
+            if n['k'] == 'ref' and n.get('sk') == 'local':
+                pt = g.point_of.get((id(ctx), n['i']))
+                out = set()
+                for (v, d) in rds.get(pt.id if pt else sc.id, ()):
+                    if v != n['id']:
+                        continue
+                    dp = g.points[d]
+                    for (vv, st, vx) in defs_in_node(dp.f, dp.n):
+                        if vv == n['id'] and vx is not None and vx != dp.n['i']:
+                            out |= resolve(dp.f, vx, dp.ctx, scen, rds, depth + 1)
+                return out or {'other:undefined'}
+            return {'other:' + n['k']}
+        ok = True
+        for (sname, scen, want) in (('sampler supplied a state', {'samplerSet': True}, {'sampler'}),
+                                    ('no sampler state, valid parent', {'samplerSet': False, 'parentValid': True}, {'parent'}),
+                                    ('no sampler state, no valid parent', {'samplerSet': False, 'parentValid': False}, {'default'})):
+            def skip(a, b, lab, _scen=scen):
+                if not lab or not isinstance(lab[0], int):
+                    return False
+                role, pol = atom_role(lab[1], lab[0], a.ctx)
+                if role not in _scen:
+                    return False
+                truth = lab[2] if pol else (not lab[2])
+                return truth is not _scen[role]
+            rds = reaching_defs(g, skip_edge=skip)
+            got = resolve(f, args[4], sc.ctx, scen, rds)
+            if got != want:
+                ok = False
+                ts_why = 'scenario "%s": the trace state comes from %s, expected %s' % (sname, sorted(got), sorted(want))
     ck.verdict(ok, rule, f, 'trace-state-source', sc.n,
                'trace state = sampler\'s if set, else parent\'s when the parent is valid, else default' if ok else
-               'the trace state of the new context is not sampler\'s-if-set / parent\'s-when-valid / default')
+               'the trace state of the new context is not sampler\'s-if-set / parent\'s-when-valid / default (%s)' % ts_why)
     return sc
 
 
